@@ -4,6 +4,7 @@ C12.  A pipeline is a *program*: an ordered list of operations applied in place 
 """
 import copy
 import math
+import random
 
 import numpy as np
 
@@ -172,6 +173,17 @@ def gen_world_for(rnd, profile):
     h = hashlib.sha256(json.dumps(w, sort_keys=True, default=str).encode()).digest()
     if h[0] < 256 * float(os.environ.get("VERIF_COORD_OFF_P", profile.get("coord_off_p", 0.15))):
         w["coord_off"] = [(0, 3, 17, 100)[h[1] % 4], (1, 2, 5, 40)[h[2] % 4]]
+    if h[4] < 256 * float(os.environ.get("VERIF_LEVEL_P", profile.get("level_p", 0.08))):
+        w["level"] = (4000, 60000)[h[5] % 2]
+    if h[6] < 256 * float(os.environ.get("VERIF_WIDE_P", profile.get("wide_p", 0.0))):
+        # a wide, low image searched over 256 or more disparity samples, most of the right image masked: counters of
+        # candidates per pixel go past one byte
+        g = random.Random(int.from_bytes(h[8:16], "big"))
+        w["rows"], w["cols"] = g.randint(3, 6), g.randint(262, 300)
+        half = g.randint(128, 136)
+        w["disp"], w["disp_right"] = {"kind": "scalar", "min": -half, "max": half - g.randint(0, 2)}, None
+        w["mask_right"] = {"seed": g.getrandbits(32), "p_invalid": g.choice([0.9, 0.97, 1.0]), "p_nodata": 0.0}
+        w.pop("coord_off", None)
     return w
 
 
